@@ -185,7 +185,8 @@ def variants_of(text, sep, fixed, rows, max_rows):
             alts.append(fq)
         elif row == 'unknown':
             for pos in range(fixed, len(els) + 1):
-                for unk in ('x-verif-unknown', 'x-verif-unknown=1'):
+                for unk in ('x-verif-unknown', 'x-verif-unknown=1', 'x-verif-unknown="a"', 'x-verif-unknown="a=1"',
+                            'x-verif-unknown="a=1%s b=2"' % sep):
                     alts.append(lambda e, j, pos=pos, unk=unk: (e[:pos] + [unk] + e[pos:], j, '', ''))
         if alts:
             alternatives[row] = alts
